@@ -633,8 +633,9 @@ def gen_case(rng: random.Random, tall: bool = False) -> Tuple[dict, List[list]]:
 
 
 # --------------------------------------------------------------------------- fault injection
-class BoomError(Exception):
-    pass
+class BoomError(BaseException):
+    """injected fault: deliberately NOT an Exception subclass (a KeyboardInterrupt-like fault must be
+    cleaned up after too: `except Exception` is not enough)"""
 
 
 class BlockError(Exception):
